@@ -301,6 +301,9 @@ def fields_touched(ws, fn, adt_name):
             for f in v["fields"]:
                 names.add(f["name"])
     short_name = adt_name.rsplit("::", 1)[-1]
+    # the type of the base local must name this ADT (full path, or its last
+    # segment as a whole word: `WireSyncCompare` is not `SyncCompare`)
+    ty_rx = re.compile(r"(?<![A-Za-z0-9_])(?:%s|%s)(?![A-Za-z0-9_])" % (re.escape(adt_name), re.escape(short_name)))
 
     def visit(body, place, is_write):
         if place is None or "." not in place:
@@ -309,7 +312,7 @@ def fields_touched(ws, fn, adt_name):
         ty = body.locals[l]
         proj = cfg.place_proj(place)
         # closure captures: 1.fK: then the captured value's own fields
-        if short_name not in ty and not (l == 1 and body.kind == "Closure"):
+        if not ty_rx.search(ty) and not (l == 1 and body.kind == "Closure"):
             return
         for e in proj:
             if e.startswith("f") and ":" in e:
